@@ -14,6 +14,7 @@
 (* tree  = list of <<path, ino, isdir, mtime, size>>, path = sequence of small ints,     *)
 (*         <<>> = the watched root; an empty list = the root does not exist              *)
 (* fault = [op |-> "none" | "stat" | "listdir", p |-> path, err |-> errno name]          *)
+(*         (+ n: the call index the harness used, ignored here)                          *)
 (* ev    = list of <<class, src path, dest path or <<0>> >>                              *)
 (*                                                                                       *)
 (* The monitors recompute, inside TLA+, the snapshot each poll must have taken           *)
@@ -21,7 +22,7 @@
 (* by the C09 laws between successive expected snapshots (Polling!EventsAreDiff): the    *)
 (* code is never compared with the transcription Polling!EmitDiff / SnapshotDiff!Diff.   *)
 (* Permissive points: an unreadable root (EACCES on listdir(root)) may be handled as     *)
-(* "root gone" or as "root is empty"; start() on a missing root may raise.               *)
+(* "root gone" or as "root is empty"; start() on a missing root may raise or not.        *)
 (* viol holds numbers  line * 16 + clause  (TLC wraps long tuples when printing):        *)
 (*   1 P_C10_EventsEqualDiff   2 P_C10_DeletionsBeforeCreations  3 P_C10_NothingWhenUnchanged *)
 (*   4 P_C10_SnapshotIsReachableSet  5 P_C10_FaultMeansAbsent  6 P_C10_RootGone          *)
@@ -31,8 +32,9 @@ EXTENDS TraceUtil
 VARIABLES tid, l, viol,
           tprev,      \* the snapshot the emitter must be holding (as the property defines it)
           trec,       \* watch.is_recursive
-          tstopped    \* the emitter has stopped (root gone) or died
-vars == <<tid, l, viol, tprev, trec, tstopped>>
+          tstopped,   \* the emitter has stopped (root gone) or died
+          drift       \* Level I: polls whose events differ from Polling!EventsOf(SnapshotDiff!Diff(...)); never a verdict
+vars == <<tid, l, viol, tprev, trec, tstopped, drift>>
 
 P == INSTANCE Polling WITH Names <- {}, InoPool <- {}, MaxEntries <- 0, MaxOps <- 0, MaxOpsPerPoll <- 0, MaxPolls <- 0,
                            MaxFaults <- 0, Errs <- {}, RecModes <- {}, FaultBaseline <- FALSE, Deviation <- "none",
@@ -56,9 +58,11 @@ OnlyRootDeleted(evs) == evs = <<[cls |-> "DirDeleted", src |-> Root, dst |-> <<0
 UnreadableRoot(f) == f.op = "listdir" /\ f.path = Root /\ f.err = "EACCES"
 
 Code(cond, k) == IF cond THEN {} ELSE {l * 16 + k}
-Add(S) == viol' = IF Cardinality(viol) >= 4 THEN viol ELSE viol \cup S
+\* the drift count travels as one negative number added with the last line
+Add(S) == viol' = (IF Cardinality(viol) >= 4 THEN viol ELSE viol \cup S)
+                  \cup (IF l = Len(Tr) /\ drift' > 0 THEN {0 - drift'} ELSE {})
 
-Init == tid \in 1..NTraces /\ l = 1 /\ viol = {} /\ tprev = <<>> /\ trec = FALSE /\ tstopped = FALSE
+Init == tid \in 1..NTraces /\ l = 1 /\ viol = {} /\ tprev = <<>> /\ trec = FALSE /\ tstopped = FALSE /\ drift = 0
 
 Consume(k) == l <= Len(Tr) /\ Tr[l].e = k /\ l' = l + 1 /\ UNCHANGED tid
 
@@ -66,12 +70,16 @@ StartLine ==
     /\ Consume("start")
     /\ LET ln == Tr[l]  F == TreeOf(ln.tree)  f == FaultOf(ln.fault)
            gone == P!RootGoneBy(F, f)
-       IN /\ trec' = ln.rec
+       IN /\ trec' = ln.rec /\ drift' = drift
           /\ IF ln.res = "raised"
              THEN \* P_C10_BaselineAtStart: start() may only fail when the root cannot be read
                   /\ Add(Code(gone, 8)) /\ tstopped' = TRUE /\ UNCHANGED tprev
-             ELSE /\ Add(Code(~gone \/ UnreadableRoot(f), 8)) /\ tstopped' = FALSE
-                  /\ tprev' = IF gone THEN P!Expected(F, ln.rec, [f EXCEPT !.err = "ENOENT"]) ELSE P!Expected(F, ln.rec, f)
+             ELSE \* the baseline is the tree at start(), as the walk of start() saw it; the property does not say what a
+                  \* successful start() on a missing root holds: nothing
+                  /\ Add({}) /\ tstopped' = FALSE
+                  /\ tprev' = IF gone /\ UnreadableRoot(f) THEN P!Expected(F, ln.rec, [f EXCEPT !.err = "ENOENT"])
+                              ELSE IF gone THEN <<>>
+                              ELSE P!Expected(F, ln.rec, f)
 
 PollLine ==
     /\ Consume("poll")
@@ -86,22 +94,25 @@ PollLine ==
                         \cup Code(tprev = E => evs = <<>>, 3)
                         \cup Code(ln.alive, 5)
            GoneOK == OnlyRootDeleted(evs) /\ ~ln.alive
-       IN IF tstopped
-          THEN \* P_C10_StoppedIsFinal: a stopped emitter delivers nothing any more
-               /\ Add(Code(evs = <<>> /\ ~ln.alive, 7)) /\ UNCHANGED <<tprev, tstopped>>
-          ELSE IF ln.exc # ""
-          THEN \* an exception escaped queue_events: the emitter thread would die
-               /\ Add({l * 16 + (IF gone THEN 6 ELSE 5)}) /\ tstopped' = TRUE /\ UNCHANGED tprev
-          ELSE IF gone /\ UnreadableRoot(f) /\ ~GoneOK
-          THEN /\ Add(Normal(expEmptyRoot)) /\ tprev' = expEmptyRoot /\ UNCHANGED tstopped
-          ELSE IF gone
-          THEN \* P_C10_RootGone: exactly one DirDeleted(root), and the emitter stops
-               /\ Add(Code(GoneOK, 6)) /\ tstopped' = TRUE /\ UNCHANGED tprev
-          ELSE /\ Add(Normal(exp)) /\ tprev' = exp /\ UNCHANGED tstopped
+           model == IF gone THEN <<[cls |-> "DirDeleted", src |-> Root, dst |-> <<0>>]>>
+                    ELSE P!EventsOf(P!SD!Diff(tprev, exp, FALSE))
+       IN /\ drift' = drift + (IF ~tstopped /\ (Len(model) # Len(evs) \/ SeqToSet(model) # SeqToSet(evs)) THEN 1 ELSE 0)
+          /\ (IF tstopped
+               THEN \* P_C10_StoppedIsFinal: a stopped emitter delivers nothing any more
+                    /\ Add(Code(evs = <<>> /\ ~ln.alive, 7)) /\ UNCHANGED <<tprev, tstopped>>
+               ELSE IF ln.exc # ""
+               THEN \* an exception escaped queue_events: the emitter thread would die
+                    /\ Add({l * 16 + (IF gone THEN 6 ELSE 5)}) /\ tstopped' = TRUE /\ UNCHANGED tprev
+               ELSE IF gone /\ UnreadableRoot(f) /\ ~GoneOK
+               THEN /\ Add(Normal(expEmptyRoot)) /\ tprev' = expEmptyRoot /\ UNCHANGED tstopped
+               ELSE IF gone
+               THEN \* P_C10_RootGone: exactly one DirDeleted(root), and the emitter stops
+                    /\ Add(Code(GoneOK, 6)) /\ tstopped' = TRUE /\ UNCHANGED tprev
+               ELSE /\ Add(Normal(exp)) /\ tprev' = exp /\ UNCHANGED tstopped)
     /\ UNCHANGED trec
 
 SnapLine ==
-    /\ Consume("snap")
+    /\ Consume("snap") /\ drift' = drift
     /\ LET ln == Tr[l]  F == TreeOf(ln.tree)  f == FaultOf(ln.fault)
            gone == P!RootGoneBy(F, f)
            exp == P!Expected(F, ln.rec, f)
@@ -116,6 +127,7 @@ SnapLine ==
 \* threaded runs: after stop() + join() no emitter thread is left, and no thread died of an exception
 EndLine ==
     /\ Consume("end")
+    /\ drift' = drift
     /\ Add(Code(~Tr[l].alive, 7) \cup Code(Tr[l].uncaught = 0, 5))
     /\ UNCHANGED <<tprev, trec, tstopped>>
 
